@@ -76,7 +76,7 @@ def program_streams(ctx, micro_prefixes=None, want_random=True):
         micro = [(n, t) for n, t in micro if n.startswith(tuple(micro_prefixes))]
     off = rng.randrange(0, sz["micro_step"])
     for k, (name, text) in enumerate(micro):
-        if k % sz["micro_step"] == off % sz["micro_step"] or name.startswith(("addrmix", "appid", "retmix")) or (name.startswith("unkop") and k % 2 == off % 2):   # small directed families run in full (unkop: every second)
+        if k % sz["micro_step"] == off % sz["micro_step"] or name.startswith(("addrmix", "appid", "retmix", "bottom")) or (name.startswith("unkop") and k % 2 == off % 2):   # small directed families run in full (unkop: every second)
             progs.append(("micro:" + name, text, {"stream": "micro"}))
     if want_random:
         for k in range(sz["random"]):
@@ -315,8 +315,35 @@ def run_c03(ctx):
                     det, fld, dangerous, mk = "rekey-to", "RekeyTo", [("addr", oracle.FRESH)], (lambda v: {"RekeyTo": v})
                 else:
                     det, fld, dangerous, mk = "missing-fee-check", "Fee", [272001, 2**64 - 1], (lambda v: {"Fee": v})
+            elif kind == "bottom" and name.split("/")[1] in ("RekeyTo", "Fee"):
+                if name.split("/")[1] == "RekeyTo":
+                    det, fld, dangerous, mk = "rekey-to", "RekeyTo", [("addr", oracle.FRESH)], (lambda v: {"RekeyTo": v})
+                else:
+                    det, fld, dangerous, mk = "missing-fee-check", "Fee", [272001, 2**64 - 1], (lambda v: {"Fee": v})
             elif kind == "oc":
-                continue  # kind-based verdicts are limited by known finding D16
+                # kind-based verdicts: known finding D16 can only make the tool MORE silent, so the direction of C03 (no report
+                # when every accepting execution excludes UpdateApplication / DeleteApplication) is decided here, one-sided
+                if re.search(r"/(6|7)(num|name)/", name):
+                    continue  # a constant that is no OnCompletion value (6, 7) is not interpreted by the tool: it reports (observation, DESIGN section 9)
+                try:
+                    prog = avm.Program(text)
+                except Exception:  # pylint: disable=broad-except
+                    continue
+                for det, oc in (("is-updatable", 4), ("is-deletable", 5)):
+                    appr = False
+                    for appid in (0, 7):
+                        txn = {"_index": 0, "Fee": 1000, "RekeyTo": ("addr", avm.ZERO), "CloseRemainderTo": ("addr", avm.ZERO), "AssetCloseTo": ("addr", avm.ZERO),
+                               "Sender": ("addr", "CREATOR"), "Receiver": ("addr", "CREATOR"), "TypeEnum": 6, "OnCompletion": oc, "ApplicationID": appid}
+                        try:
+                            ok, _ = avm.run(prog, {"group": [txn], "index": 0, "creator": "CREATOR"})
+                        except avm.Unsupported:
+                            ok = True
+                        appr = appr or bool(ok)
+                    rep = isinstance(i["paths"].get(det), list) and len(i["paths"][det]) > 0
+                    n += 1
+                    if rep and not appr:
+                        ctx["violations"].append((f"{name}: {det} reports a path although no application call with that OnCompletion is approved", {"kind": "verdict-exactness", "program": text, "detector": det}))
+                continue
             else:
                 continue
             try:
@@ -342,7 +369,7 @@ def run_c03(ctx):
         ctx["cov"]["exact_verdicts_checked"] = n
     # full grid for the direct-check prefixes
     old = sizes
-    generic_run(ctx, cmp_for(keys=None, paths=[], cfg=False), set(), micro_prefixes=["fee", "addr/RekeyTo", "bool", "spell", "retmix", "unkop"], extra=extra, known_ids=("D25",))
+    generic_run(ctx, cmp_for(keys=None, paths=[], cfg=False), set(), micro_prefixes=["fee", "addr/RekeyTo", "bool", "spell", "retmix", "unkop", "oc", "bottom"], extra=extra, known_ids=("D25",))
 
 
 def run_c04(ctx):
@@ -1043,8 +1070,16 @@ def c12_directed():
             neg = [] if br == "bnz" else ["!"]
             out.append("\n".join(["#pragma version 6", "txn NumAppArgs", "int 0", "=="] + neg + [f"{br} done"] + chk + neg + [f"{br} done", "int 0", "return", "done:", "int 1", "return"]))
             out.append("\n".join(["#pragma version 6", "txn NumAppArgs", "int 0", "=="] + neg + [f"{br} done", "txn NumAppArgs", "int 1", "=="] + neg + [f"{br} second", "err", "second:"] + chk + ["assert", "b done", "done:", "int 1", "return"]))
+            # a path block with an edge to a LATER path block that is not its direct successor (if-without-else skip edge), and a
+            # back edge onto a path block
+            out.append("\n".join(["#pragma version 6", "txn NumAppArgs", "int 0", "=="] + neg + [f"{br} skip", "int 7", "pop", "skip:"] + chk + ["pop", "int 1", "return"]))
+            out.append("\n".join(["#pragma version 6", "top:", "txn NumAppArgs", "int 0", "=="] + neg + [f"{br} body", "int 1", "return", "body:"] + chk + [f"{br} top", "int 1", "return"]))
             # shortcut over a then-block inside the function body
             out.append("\n".join(["#pragma version 6", "txn NumAppArgs", "int 0", "=="] + neg + [f"{br} other", "txn NumAppArgs", "int 1", "=="] + neg + [f"{br} skip"] + chk + ["assert", "skip:", "int 1", "return", "other:", "int 1", "return"]))
+    # a router with more than two successors (switch / match), unchecked handlers
+    for router in (["txn NumAppArgs", "switch h0 h1 h2"], ["int 0", "int 1", "int 2", "txn NumAppArgs", "match h0 h1 h2"]):
+        out.append("\n".join(["#pragma version 8"] + router + ["err", "h0:", "int 1", "return", "h1:", "txn Fee", "int 1000", "<=", "assert", "int 1", "return", "h2:", "int 1", "return"]))
+        out.append("\n".join(["#pragma version 8", "int 1", "pop"] + router + ["int 1", "return", "h0:", "int 1", "return", "h1:", "int 1", "return", "h2:", "txn RekeyTo", "global ZeroAddress", "==", "return"]))
     return out
 
 
@@ -1112,6 +1147,21 @@ def run_c12(ctx):
                 if bad:
                     ctx["violations"].append((f"{meta[rid][0]} path {path}: in the function's graph block {x} and block {bad[0]} disagree about the edge between them (next {e['next']} / prev {e['prev']}; {bad[0]}: next {ed[bad[0]]['next']} / prev {ed[bad[0]]['prev']})",
                                               {"kind": "function-graph-mirror", "program": t, "dispatch_path": path}))
+                    break
+            # (iii) every path a detector reports for the function starts with the dispatch path: every departure before Bk
+            #       leads to an error block, which rejects
+            cib = ci_by_text.get(t) or {}
+            sub_blocks = {str(x) for sb in cib.get("subs", []) for x in sb["blocks"]}
+            for det, ps in (b.get("paths") or {}).items():
+                # the dispatch path is a walk in the MAIN graph (a callsub block is followed by its return point); a reported path
+                # also lists the blocks of the subroutines it passes through: those are dropped before comparing
+                main_part = lambda pp: [str(x) for x in pp if str(x) not in sub_blocks]
+                # (a path may end inside a subroutine that terminates the program before the walk reaches Bk: then its main part
+                # is a proper prefix of the dispatch path)
+                off = [pp for pp in ps if isinstance(pp, list) and main_part(pp)[:len(path)] != [str(x) for x in path][:len(main_part(pp))]] if isinstance(ps, list) else []
+                if off:
+                    ctx["violations"].append((f"{meta[rid][0]} path {path}: {det} reports the path {off[0]} for this function, which does not start with the dispatch path",
+                                              {"kind": "function-path-off-dispatch", "program": t, "dispatch_path": path, "detector": det}))
                     break
             ci = ci_by_text.get(t)
             if meta[rid][0] in oracle_ok and "ctx" in b and isinstance(ci, dict) and "blocks" in ci:
